@@ -65,6 +65,39 @@ def _callee_fn(t):
     return None
 
 
+transparent_hosts = set()   # functions in which a direct call of a locally built closure is inlined (set by apply / deep bodies)
+
+
+def _closure_called(f, t):
+    """id of the closure body when the call terminator invokes, through Fn/FnMut/FnOnce, a closure value built in f"""
+    c = t.get("callee") or {}
+    names = " ".join(str(c.get(k, "")) for k in ("def", "path"))
+    if not any(x in names for x in ("FnOnce::call_once", "FnMut::call_mut", "Fn::call", "ops::FnOnce<", "ops::FnMut<", "ops::Fn<")) or not t.get("args"):
+        return None
+    op = t["args"][0]
+    pl = op.get("mv") or op.get("cp") if isinstance(op, dict) else None
+    seen = set()
+    while pl is not None and pl["l"] not in seen:
+        seen.add(pl["l"])
+        defs = []
+        for blk in f["blocks"]:
+            for st in blk["s"]:
+                if st["k"] == "assign" and st["lhs"]["l"] == pl["l"] and not st["lhs"].get("p"):
+                    defs.append(st)
+        if len(defs) != 1:
+            return None
+        rv = defs[0]["rv"]
+        if rv["k"] == "agg" and "closure_fn" in rv:
+            return rv["closure_fn"]
+        if rv["k"] == "use":
+            pl = rv["op"].get("mv") or rv["op"].get("cp")
+        elif rv["k"] == "ref":
+            pl = rv["pl"]
+        else:
+            return None
+    return None
+
+
 def inline_into(fns, f, transparent, depth=0, stack=()):
     """inline (in place) the calls of f to transparent functions; returns the list of inlined callee names"""
     done = []
@@ -73,11 +106,18 @@ def inline_into(fns, f, transparent, depth=0, stack=()):
         blk = f["blocks"][i]
         t = blk["t"]
         g_id = _callee_fn(t) if t["k"] == "call" else None
-        if g_id is None or g_id not in transparent or g_id == f["id"] or g_id in stack or depth >= MAX_DEPTH:
+        untuple = False
+        if g_id is None and t["k"] == "call":
+            # `f(x)` where f is a closure built in this very body (`with_file_at(offset, |file| ..)` once the helper
+            # is inlined): <closure as FnOnce<(A,)>>::call_once(closure, (x,))
+            cid = _closure_called(f, t)
+            if cid is not None and (cid in transparent or fns[cid].get("parent") in transparent or f["id"] in transparent_hosts):
+                g_id, untuple = cid, True
+        if g_id is None or (g_id not in transparent and not untuple) or g_id == f["id"] or g_id in stack or depth >= MAX_DEPTH:
             i += 1
             continue
         g = fns[g_id]
-        if "blocks" not in g or len(g["blocks"]) > MAX_BLOCKS or len(t["args"]) != g["arg_count"]:
+        if "blocks" not in g or len(g["blocks"]) > MAX_BLOCKS or (not untuple and len(t["args"]) != g["arg_count"]) or (untuple and len(t["args"]) != 2):
             i += 1
             continue
         g = copy.deepcopy(g)
@@ -104,8 +144,18 @@ def inline_into(fns, f, transparent, depth=0, stack=()):
                 gb["t"] = {"k": "goto", "t": unw, "ln": gt.get("ln")} if unw is not None else gt
             f["blocks"].append(gb)
         # bind the parameters, then jump into the callee
-        for k, a in enumerate(t["args"]):
-            blk["s"].append({"k": "assign", "lhs": {"l": loff + 1 + k}, "rv": {"k": "use", "op": copy.deepcopy(a)}, "ln": t.get("ln"), "inl_arg": g["name"]})
+        if untuple:
+            # rust-call ABI: (closure, (a, b, ..)) -> closure body parameters (env, a, b, ..)
+            blk["s"].append({"k": "assign", "lhs": {"l": loff + 1}, "rv": {"k": "use", "op": copy.deepcopy(t["args"][0])}, "ln": t.get("ln"), "inl_arg": g["name"]})
+            tup = t["args"][1]
+            tpl = tup.get("mv") or tup.get("cp")
+            for k in range(g["arg_count"] - 1):
+                if tpl is not None:
+                    src = {"cp": {"l": tpl["l"], "p": list(tpl.get("p") or []) + [{"f": k}]}}
+                    blk["s"].append({"k": "assign", "lhs": {"l": loff + 2 + k}, "rv": {"k": "use", "op": src}, "ln": t.get("ln"), "inl_arg": g["name"]})
+        else:
+            for k, a in enumerate(t["args"]):
+                blk["s"].append({"k": "assign", "lhs": {"l": loff + 1 + k}, "rv": {"k": "use", "op": copy.deepcopy(a)}, "ln": t.get("ln"), "inl_arg": g["name"]})
         blk["t"] = {"k": "goto", "t": boff, "ln": t.get("ln"), "inlined": g["name"]}
         if cont is not None:
             _thread_returns(f, boff, len(f["blocks"]), loff, dest, cont)
@@ -276,5 +326,9 @@ def apply(fns, baseline=None):
             continue
         d = inline_into(fns, f, transparent)
         if d:
+            # a helper taking a closure was inlined here: the closure it calls is built in this body -- inline that call too
+            transparent_hosts.add(f["id"])
+            d += inline_into(fns, f, transparent)
+            transparent_hosts.discard(f["id"])
             report[f["name"]] = d
     return report, transparent
